@@ -15,6 +15,7 @@ import (
 	mrand "math/rand"
 	"net"
 	"os"
+	"path/filepath"
 	"sync"
 	"time"
 
@@ -228,8 +229,12 @@ func runTickets(s *scenario) {
 		}
 	}
 	defer closeCur()
+	shown := map[string]bool{} // tickets the server has been shown
+	reused := false
+	blocked := false
 	connect := func() (string, bool) {
 		closeCur()
+		reused = false
 		l := wire.NewLink(true, 0)
 		type sres struct {
 			c   *refss.Conn
@@ -239,9 +244,14 @@ func runTickets(s *scenario) {
 		go func() { c, err := srv.Accept(l.B, 50, nil); sch <- sres{c, err} }()
 		c, err := dial(cf, l.A, password(secret))
 		if err != nil {
+			sent := l.A.State().BytesWrit
 			l.A.Close()
 			l.B.Close()
 			<-sch
+			if blocked && sent == 0 {
+				// refused before a single byte was sent while the store file cannot be rewritten
+				return "fault", false
+			}
 			return "dial-error: " + err.Error(), false
 		}
 		var sr sres
@@ -272,22 +282,50 @@ func runTickets(s *scenario) {
 			ok = false
 		}
 		cur, curSrv, curLink = c, sr.c, l
+		if sr.c.Info.Kind == refss.KindTicket {
+			k := string(sr.c.Info.Ticket)
+			reused = shown[k]
+			shown[k] = true
+		}
 		return sr.c.Info.Kind, ok
 	}
 	for _, st := range s.Steps {
 		switch st.A {
 		case "connect":
 			kind, ok := connect()
-			w.Emit(vt.Ev{"event": "Connect", "kind": kind, "ok": ok})
-			if !ok {
+			w.Emit(vt.Ev{"event": "Connect", "kind": kind, "ok": ok, "reused": reused})
+			if !ok && kind != "fault" {
 				return
 			}
+		case "block":
+			// the atomic rewrite of the ticket file cannot create its temporary file: a directory is in its place
+			if err := os.Mkdir(filepath.Join(dir, "scramblesuit_tickets.json.tmp"), 0o700); err != nil {
+				w.Emit(vt.Ev{"event": "DriverDead", "why": "block: " + err.Error()})
+				return
+			}
+			blocked = true
+			w.Emit(vt.Ev{"event": "Block"})
+		case "unblock":
+			if err := os.Remove(filepath.Join(dir, "scramblesuit_tickets.json.tmp")); err != nil {
+				w.Emit(vt.Ev{"event": "DriverDead", "why": "unblock: " + err.Error()})
+				return
+			}
+			blocked = false
+			w.Emit(vt.Ev{"event": "Unblock"})
 		case "issue":
 			if cur == nil {
 				kind, ok := connect()
-				w.Emit(vt.Ev{"event": "Connect", "kind": kind, "ok": ok})
-				if !ok {
+				w.Emit(vt.Ev{"event": "Connect", "kind": kind, "ok": ok, "reused": reused})
+				if !ok && kind != "fault" {
 					return
+				}
+				if cur == nil {
+					// refused because of the write fault (the stored ticket is gone from memory now): the next dial goes through
+					kind, ok = connect()
+					w.Emit(vt.Ev{"event": "Connect", "kind": kind, "ok": ok, "reused": reused})
+					if !ok {
+						return
+					}
 				}
 			}
 			if _, _, err := curSrv.IssueTicket(); err != nil {
